@@ -614,6 +614,12 @@ impl IQLEngine {
             }
         }
 
+        // Recursion through negation has no stratified model: never evaluate it. Persistent
+        // rules are checked when registered, but session rules (request-local or stored in a
+        // session) only reach the engine here, combined with the persistent ones - a negative
+        // cycle among them, or spanning both kinds, used to be evaluated silently.
+        rule_catalog::validate_rules_stratification(&program.rules)?;
+
         // Recursion detection
         self.has_recursion = recursion::has_recursion(&program);
 
